@@ -619,41 +619,7 @@ Proof.
     + change baseBytes with (2 * 32). rewrite enc_head_shead by lia. reflexivity.
 Qed.
 
-Theorem enc_ser : forall (O : eopts) (i : item), eo_optsize O = false -> plain i -> enc O i = ser (tree_of O i).
-Proof.
-  intros O i Ho. induction i using item_ind'; intros Hp; cbn [enc tree_of plain] in *.
-  - reflexivity.
-  - destruct b; reflexivity.
-  - unfold enc_int, int_tree. destruct (z <? 0)%Z; cbn [ser].
-    + change baseNegInt with (1 * 32). apply enc_head_shead. lia.
-    + change baseUint with (0 * 32). apply enc_head_shead. lia.
-  - cbn [ser]. change baseUint with (0 * 32). apply enc_head_shead. lia.
-  - unfold enc_f32. rewrite Ho. cbn [andb ser]. rewrite be_put_sbe. reflexivity.
-  - unfold enc_f64. rewrite Ho. cbn [andb ser]. rewrite be_put_sbe. reflexivity.
-  - destruct (eo_str2raw O); cbn [negb]; [apply (enc_str_ser O false) | apply (enc_str_ser O true)].
-  - apply (enc_str_ser O false).
-  - destruct Hp as [Hp Hlen]. apply fix_Forall in Hp.
-    assert (E : flat_map (enc O) l = flat_map ser (map (tree_of O) l)).
-    { rewrite flat_map_map. apply flat_map_ext_in. intros x Hx. rewrite Forall_forall in H, Hp. apply H; auto. }
-    destruct l as [| x l'].
-    + destruct (eo_indef O); reflexivity.
-    + rewrite E. destruct (eo_indef O); cbn [ser].
-      * reflexivity.
-      * rewrite app_nil_r. change baseArray with (4 * 32). rewrite enc_head_shead by lia. rewrite map_length. reflexivity.
-  - destruct Hp as [Hp Hlen]. apply fix_Forall2 in Hp.
-    assert (E : flat_map (fun kv => enc O (fst kv) ++ enc O (snd kv)) l
-                = flat_map (fun kv => ser (fst kv) ++ ser (snd kv)) (map (fun kv => (tree_of O (fst kv), tree_of O (snd kv))) l)).
-    { rewrite flat_map_map. cbn [fst snd]. apply flat_map_ext_in. intros x Hx. rewrite Forall_forall in H, Hp.
-      destruct (H x Hx) as [H1 H2]. destruct (Hp x Hx) as [P1 P2]. rewrite H1, H2 by assumption. reflexivity. }
-    destruct l as [| x l'].
-    + destruct (eo_indef O); reflexivity.
-    + rewrite E. destruct (eo_indef O); cbn [ser].
-      * reflexivity.
-      * rewrite app_nil_r. change baseMap with (5 * 32). rewrite enc_head_shead by lia. rewrite map_length. reflexivity.
-  - destruct Hp as [Ht Hp]. cbn [ser]. rewrite IHi by assumption. change baseTag with (6 * 32). rewrite enc_head_shead by lia. reflexivity.
-  - contradiction.
-  - contradiction.
-Qed.
+
 
 (* ------------------------------------------------------------------ *)
 (* the specification's decoder reads back every well-formed serialisation *)
@@ -927,23 +893,6 @@ Proof.
 Qed.
 
 (* ------------------------------------------------------------------ *)
-(* the data carried by an item, read off the item alone *)
-Fixpoint sdata_of (O : eopts) (i : item) : sdata :=
-  match i with
-  | INil => DSimple 22
-  | IBool b => DSimple (if b then 21 else 20)
-  | IInt z => if (z <? 0)%Z then DNint (Z.to_N (-1 - z)) else DUint (Z.to_N z)
-  | IUint n => DUint n
-  | IF32 b => DFloat 32 b
-  | IF64 b => DFloat 64 b
-  | IStr s => if eo_str2raw O then DBytes s else DText s      (* StringToRaw: documented *)
-  | IBytes s => DBytes s
-  | IArr l => DArr (map (sdata_of O) l)
-  | IMap l => DMap (map (fun kv => (sdata_of O (fst kv), sdata_of O (snd kv))) l)
-  | ITag t v => DTag t (sdata_of O v)
-  | IExt _ _ | ITime _ _ => DSimple 22
-  end.
-
 Lemma Forall_firstn' {A} (P : A -> Prop) : forall n l, Forall P l -> Forall P (firstn n l).
 Proof. induction n; intros; simpl; [constructor |]. destruct l; [constructor |]. inversion H; subst. constructor; auto. Qed.
 Lemma Forall_skipn' {A} (P : A -> Prop) : forall n l, Forall P l -> Forall P (skipn n l).
@@ -1005,57 +954,12 @@ Proof.
   - inversion H as [| ? ? [? ?] ?]; subst. cbn [fst snd] in *. repeat split; try assumption. apply IH; assumption.
 Qed.
 
-Theorem tree_of_twf : forall (O : eopts) (i : item), wf i -> plain i -> twf (tree_of O i).
-Proof.
-  intros O i. induction i using item_ind'; intros Hw Hp; cbn [tree_of wf plain] in *.
-  - cbn. lia.
-  - destruct b; cbn; lia.
-  - unfold int_tree. destruct (z <? 0)%Z; cbn [twf]; apply minw_fits; lia.
-  - cbn [twf]. apply minw_fits; assumption.
-  - cbn [twf]. assumption.
-  - cbn [twf]. assumption.
-  - apply str_tree_twf; assumption.
-  - apply str_tree_twf; assumption.
-  - destruct Hp as [Hp Hlen]. apply fix_Forall in Hp. apply fix_Forall in Hw.
-    assert (Ht : Forall twf (map (tree_of O) l)).
-    { apply Forall_map. rewrite Forall_forall in *. intros x Hx. apply H; auto. }
-    destruct (eo_indef O); cbn [twf].
-    + apply fix_Forall. assumption.
-    + split; [rewrite map_length; apply minw_fits; assumption | apply fix_Forall; assumption].
-  - destruct Hp as [Hp Hlen]. apply fix_Forall2 in Hp. apply wf_pairs_Forall in Hw.
-    assert (Ht : Forall (fun kv => twf (fst kv) /\ twf (snd kv)) (map (fun kv => (tree_of O (fst kv), tree_of O (snd kv))) l)).
-    { apply Forall_map. cbn [fst snd]. rewrite Forall_forall in *. intros x Hx.
-      destruct (H x Hx), (Hw x Hx), (Hp x Hx). split; auto. }
-    destruct (eo_indef O); cbn [twf].
-    + apply fix_Forall2. assumption.
-    + split; [rewrite map_length; apply minw_fits; assumption | apply fix_Forall2; assumption].
-  - destruct Hp as [Ht Hp]. cbn [twf]. split; [apply minw_fits; assumption | apply IHi; assumption].
-  - contradiction.
-  - contradiction.
-Qed.
 
-Theorem tree_of_data : forall (O : eopts) (i : item), plain i -> data_of (tree_of O i) = sdata_of O i.
-Proof.
-  intros O i. induction i using item_ind'; intros Hp; cbn [tree_of sdata_of plain] in *; try reflexivity.
-  - unfold int_tree. destruct (z <? 0)%Z; reflexivity.
-  - rewrite str_tree_data. destruct (eo_str2raw O); reflexivity.
-  - rewrite str_tree_data. reflexivity.
-  - destruct Hp as [Hp _]. apply fix_Forall in Hp.
-    assert (E : map data_of (map (tree_of O) l) = map (sdata_of O) l).
-    { rewrite map_map. apply map_ext_in. intros x Hx. rewrite Forall_forall in *. apply H; auto. }
-    destruct (eo_indef O); cbn [data_of]; rewrite E; reflexivity.
-  - destruct Hp as [Hp _]. apply fix_Forall2 in Hp.
-    assert (E : map (fun kv => (data_of (fst kv), data_of (snd kv))) (map (fun kv => (tree_of O (fst kv), tree_of O (snd kv))) l)
-                = map (fun kv => (sdata_of O (fst kv), sdata_of O (snd kv))) l).
-    { rewrite map_map. cbn [fst snd]. apply map_ext_in. intros x Hx. rewrite Forall_forall in *.
-      destruct (H x Hx) as [H1 H2], (Hp x Hx) as [P1 P2]. rewrite H1, H2 by assumption. reflexivity. }
-    destruct (eo_indef O); cbn [data_of]; rewrite E; reflexivity.
-  - destruct Hp as [_ Hp]. cbn [data_of]. rewrite IHi by assumption. reflexivity.
-Qed.
+
+
 
 (* ------------------------------------------------------------------ *)
 (* statements used by Properties/C10_cbor.v *)
-Definition norm (O : eopts) (D : dopts) (i : item) : item := go_of D (sdata_of O i).
 
 Lemma cbor_in_lemma : forall (D : dopts) (t : wtree) (rest : list N),
   twf t -> lib_supports D t -> (tdepth D t < maxdepth D)%Z ->
@@ -1066,35 +970,15 @@ Proof.
   all: lia.
 Qed.
 
-Lemma cbor_out_lemma : forall (O : eopts) (i : item),
-  eo_optsize O = false -> wf i -> plain i ->
-  spec_dec (spec_fuel (enc O i)) (enc O i) = Some (sdata_of O i, []).
-Proof.
-  intros O i Ho Hw Hp. rewrite enc_ser by assumption.
-  rewrite <- (app_nil_r (ser (tree_of O i))) at 2.
-  rewrite spec_ser.
-  - rewrite tree_of_data by assumption. reflexivity.
-  - apply tree_of_twf; assumption.
-  - unfold spec_fuel. lia.
-Qed.
 
-Lemma dec_enc_lemma : forall (O : eopts) (D : dopts) (i : item) (rest : list N),
-  eo_optsize O = false -> wf i -> plain i ->
-  lib_supports D (tree_of O i) -> (tdepth D (tree_of O i) < maxdepth D)%Z ->
-  dec_naked D (fuel_for (enc O i ++ rest)) (enc O i ++ rest) = Ok (norm O D i, rest).
-Proof.
-  intros O D i rest Ho Hw Hp Hs Hd. rewrite enc_ser by assumption. unfold norm.
-  rewrite <- tree_of_data by assumption.
-  apply cbor_in_lemma; try assumption. apply tree_of_twf; assumption.
-Qed.
+
+
 
 Lemma spec_consistent_lemma : forall (t : wtree) (rest : list N),
   twf t -> spec_dec (spec_fuel (ser t ++ rest)) (ser t ++ rest) = Some (data_of t, rest).
 Proof. intros t rest H. apply spec_ser; [assumption |]. unfold spec_fuel. rewrite app_length. lia. Qed.
 
-Lemma enc_wellformed_lemma : forall (O : eopts) (i : item),
-  eo_optsize O = false -> wf i -> plain i -> enc O i = ser (tree_of O i) /\ twf (tree_of O i).
-Proof. intros O i Ho Hw Hp. split; [apply enc_ser; assumption | apply tree_of_twf; assumption]. Qed.
+
 
 (* ------------------------------------------------------------------ *)
 (* the second parser (nextValueBytes) walks exactly one well-formed item *)
@@ -1332,29 +1216,7 @@ Proof.
     rewrite fst_liftI. apply (rskip_sbe 8).
 Qed.
 
-Theorem tree_of_skippable : forall (O : eopts) (i : item), plain i -> skippable (tree_of O i).
-Proof.
-  intros O i. induction i using item_ind'; intros Hp; cbn [tree_of plain] in *.
-  - cbn. lia.
-  - destruct b; cbn; lia.
-  - unfold int_tree. destruct (z <? 0)%Z; exact I.
-  - exact I.
-  - exact I.
-  - exact I.
-  - unfold str_tree. destruct (eo_indef O); destruct (negb (eo_str2raw O)); exact I.
-  - unfold str_tree. destruct (eo_indef O); exact I.
-  - destruct Hp as [Hp _]. apply fix_Forall in Hp.
-    assert (Ht : Forall skippable (map (tree_of O) l)).
-    { apply Forall_map. rewrite Forall_forall in *. intros x Hx. apply H; auto. }
-    destruct (eo_indef O); cbn [skippable]; apply fix_Forall; assumption.
-  - destruct Hp as [Hp _]. apply fix_Forall2 in Hp.
-    assert (Ht : Forall (fun kv => skippable (fst kv) /\ skippable (snd kv)) (map (fun kv => (tree_of O (fst kv), tree_of O (snd kv))) l)).
-    { apply Forall_map. cbn [fst snd]. rewrite Forall_forall in *. intros x Hx. destruct (H x Hx), (Hp x Hx). split; auto. }
-    destruct (eo_indef O); cbn [skippable]; apply fix_Forall2; assumption.
-  - destruct Hp as [_ Hp]. cbn [skippable]. apply IHi; assumption.
-  - contradiction.
-  - contradiction.
-Qed.
+
 
 Lemma skip_ser_lemma : forall (D : dopts) (t : wtree) (d : Z) (rest : list N),
   twf t -> skippable t -> (d + sdepth t < maxdepth D)%Z ->
@@ -1364,10 +1226,4 @@ Proof.
   unfold fuel_for. rewrite app_length. lia.
 Qed.
 
-Lemma skip_enc_lemma : forall (O : eopts) (D : dopts) (i : item) (d : Z) (rest : list N),
-  eo_optsize O = false -> wf i -> plain i -> (d + sdepth (tree_of O i) < maxdepth D)%Z ->
-  skip D (fuel_for (enc O i ++ rest)) d (enc O i ++ rest) = Ok rest.
-Proof.
-  intros O D i d rest Ho Hw Hp Hd. rewrite enc_ser by assumption.
-  apply skip_ser_lemma; [apply tree_of_twf | apply tree_of_skippable |]; assumption.
-Qed.
+
